@@ -11,7 +11,8 @@ LEAN_MODULES = ["NdInterp.Props.C05", "NdInterp.Props.C02", "NdInterp.Props.RatT
 THEOREM_FILES = [("NdInterp/Props/C05.lean", "C05_"), ("NdInterp/Props/C02.lean", "C05_")]
 RULE = ("extrapolate=false for Linear, CubicSpline (NotAKnot, Natural, Clamped, Periodic, Individual/Mixed) and Bilinear; every entry "
         "point (scalar, single, into, array, array_into; static and dynamic query dims, rank 0..3); queries at both range ends, the "
-        "floats adjacent on both sides, +-inf, NaN, far outside, in range; batches with the offending element at every position. "
+        "floats adjacent on both sides, +-inf, NaN, far outside, in range; batches with the offending element at every position, some with a "
+        "second offending element (the model also predicts which element and coordinate the error message names). "
         "Q (exact) and f64 (outcome kinds). non-trivial = case containing an out-of-range or boundary element")
 PARTIAL = ["NaN is outside the ordered-field theorems; C05_gate_nan covers it with no assumption on the comparisons, the f64 "
            "runs confirm the outcome on the real code"]
@@ -103,6 +104,13 @@ def generate(rng, tier):
                     bad = rng.choice([q for q, good in cand[ax] if not good])
                     qs[ax][pos] = bad
                     ok = False
+                    if k >= 2 and rng.random() < 0.4:
+                        # a second, different rejected element elsewhere: the error must name the first one in logical order
+                        pos2 = rng.choice([p for p in range(k) if p != pos])
+                        ax2 = rng.randrange(dims)
+                        others = [q for q, good in cand[ax2] if not good and q != bad and q == q]
+                        if others:
+                            qs[ax2][pos2] = rng.choice(others)
                 qshape = rng.choice([[k], [k], [1, k], [k, 1, 1]])
             dtag, qtag = gen.pick_dims(rng, r, len(qshape))
             if ent == "scalar":
